@@ -166,6 +166,17 @@ let run_case (t : string list) : string =
     (match encode_image (fmethod_of_int (int_of_string m)) (nat_of_int (int_of_string bpp)) (nat_of_int rl) (split d) with
      | Some s -> hex s
      | None -> "unmodelled")
+  | ["swtrace"; m; bpp; line; height; pieces] ->
+    (* pieces: comma-separated hex strings ("-" = an empty write) *)
+    let ps = List.map (fun x -> if x = "-" then [] else unhex x) (String.split_on_char ',' pieces) in
+    let (ns, out) = sw_trace (fmethod_of_int (int_of_string m)) (nat_of_int (int_of_string bpp))
+                      (sw_init (nat_of_int (int_of_string line)) (nat_of_int (int_of_string height))) ps in
+    String.concat "," (List.map (fun n -> string_of_int (int_of_z n)) ns) ^ "|" ^ hex out
+  | ["cwtrace"; cap; ops] ->
+    (* ops: comma-separated; "F" = flush, "-" = empty write, else hex bytes of one write call *)
+    let os = List.map (fun x -> if x = "F" then CwFlush else if x = "-" then CwWrite [] else CwWrite (unhex x)) (String.split_on_char ',' ops) in
+    let (rs, cs) = cw_trace { cw_cap = nat_of_int (int_of_string cap); cw_buf = [] } os in
+    String.concat "," (List.map (fun n -> string_of_int (int_of_z n)) rs) ^ "|" ^ String.concat "," (List.map hex cs)
   | ["writer"; anim; sep; plte; ns] ->
     let c = { animated = (if anim = "-" then None else Some (nat_of_int (int_of_string anim))); sep_def = (sep = "1"); has_plte = (plte = "1"); anc_before = O; anc_after = O } in
     let l = emitted c (List.map (fun x -> nat_of_int (int_of_string x)) (String.split_on_char ',' ns)) in
